@@ -25,6 +25,17 @@ def nets():
     for b in bs[1:]:
         pp.create_load(n3, b, 30., 5.)
     yield "ring", n3
+    # every connection is a double circuit (identical lines: exact ties in the N-1 maxima), the line index is not ascending
+    n4 = pp.create_empty_network()
+    bs = [pp.create_bus(n4, 110.) for _ in range(4)]
+    pp.create_ext_grid(n4, bs[0])
+    idx = iter([11, 5, 8, 2, 9, 3, 7, 0])
+    for a, b in ((0, 1), (1, 2), (2, 3), (3, 0)):
+        for _ in range(2):
+            pp.create_line(n4, bs[a], bs[b], 12., "149-AL1/24-ST1A 110.0", max_loading_percent=30., index=next(idx))
+    for b in bs[1:]:
+        pp.create_load(n4, b, 25., 4.)
+    yield "double circuits with an unsorted line index", n4
 
 
 def brute(net, cases):
